@@ -39,9 +39,9 @@ def stateAfter (f : Nat → α → StateM σ β) : Nat → σ → List α → σ
 def logged (f : Nat → α → StateM σ β) : Nat → α → StateM (σ × List (Nat × α)) β :=
   fun i x s => (((f i x).run s.1).1, (((f i x).run s.1).2, s.2 ++ [(i, x)]))
 
-/-- same for a folding closure -/
-def loggedFold (f : Nat → γ → α → StateM σ γ) : Nat → γ → α → StateM (σ × List (Nat × α)) γ :=
-  fun i acc x s => (((f i acc x).run s.1).1, (((f i acc x).run s.1).2, s.2 ++ [(i, x)]))
+/-- wrap an arbitrary stateful folding closure with a recorder of the elements it is called with -/
+def loggedAcc (f : γ → α → StateM σ γ) : γ → α → StateM (σ × List α) γ :=
+  fun acc x s => (((f acc x).run s.1).1, (((f acc x).run s.1).2, s.2 ++ [x]))
 
 /-! ## `imapFrom` / `enumFrom` -/
 
@@ -239,17 +239,24 @@ theorem forEachIdxM_eq_traverse (f : Nat → α → StateM σ Unit) (i : Nat) (x
   | nil => rfl
   | cons x xs ih => rw [forEachIdxM_cons_run, traverseIdx_cons_run, ih]
 
-theorem foldIdxM_logged (f : Nat → γ → α → StateM σ γ) (i : Nat) (acc : γ) (xs : List α) (s : σ) (l : List (Nat × α)) :
-    (foldIdxM (loggedFold f) i acc xs).run (s, l) =
-      (((foldIdxM f i acc xs).run s).1, (((foldIdxM f i acc xs).run s).2, l ++ enumFrom i xs)) := by
+theorem foldIdxM_loggedAcc (f : γ → α → StateM σ γ) (i : Nat) (acc : γ) (xs : List α) (s : σ) (l : List α) :
+    (foldIdxM (fun _ => loggedAcc f) i acc xs).run (s, l) =
+      (((foldIdxM (fun _ => f) i acc xs).run s).1, (((foldIdxM (fun _ => f) i acc xs).run s).2, l ++ xs)) := by
   induction xs generalizing i acc s l with
-  | nil => simp [enumFrom, imapFrom]; rfl
+  | nil => simp; rfl
   | cons x xs ih =>
     rw [foldIdxM_cons_run, foldIdxM_cons_run]
-    have hl : (loggedFold f i acc x).run (s, l) = (((f i acc x).run s).1, (((f i acc x).run s).2, l ++ [(i, x)])) := rfl
+    have hl : (loggedAcc f acc x).run (s, l) = (((f acc x).run s).1, (((f acc x).run s).2, l ++ [x])) := rfl
     rw [hl]; simp only
     rw [ih]
-    simp [enumFrom, imapFrom]
+    simp
+
+/-- a stateful fold is `List.foldl` on (accumulator, closure state) pairs: strictly left to right -/
+theorem foldIdxM_eq_foldl (f : γ → α → StateM σ γ) (i : Nat) (acc : γ) (xs : List α) (s : σ) :
+    (foldIdxM (fun _ => f) i acc xs).run s = xs.foldl (fun (p : γ × σ) x => (f p.1 x).run p.2) (acc, s) := by
+  induction xs generalizing i acc s with
+  | nil => rfl
+  | cons x xs ih => rw [foldIdxM_cons_run, ih]; rfl
 
 /-! ## pure readings -/
 
@@ -345,5 +352,58 @@ theorem fold_stamp (g : Nat → γ → α → γ) (i : Nat) (acc : γ) (xs : Lis
     rw [hs]; simp only
     rw [ih]
     simp [imapFrom, enumFrom, Nat.add_assoc, Nat.add_comm 1]
+
+/-! ## running the array-level operations in `StateM` / `Id` -/
+
+theorem mapEM_run (a : Arr α) (f : Nat → α → StateM σ β) (s : σ) :
+    (mapEM a f).run s =
+      ((collect ((traverseIdx f 0 a.elems).run s).1 >>= fun c => reshape c a.shape), ((traverseIdx f 0 a.elems).run s).2) := rfl
+
+theorem filterEM_run (a : Arr α) (f : Nat → α → StateM σ Bool) (s : σ) :
+    (filterEM a f).run s =
+      ((collect ((filterIdxM f 0 a.elems).run s).1 >>= Iter.ravel), ((filterIdxM f 0 a.elems).run s).2) := rfl
+
+theorem filterMapEM_run (a : Arr α) (f : Nat → α → StateM σ (Option β)) (s : σ) :
+    (filterMapEM a f).run s =
+      ((collect ((filterMapIdxM f 0 a.elems).run s).1 >>= Iter.ravel), ((filterMapIdxM f 0 a.elems).run s).2) := rfl
+
+theorem forEachEM_run (a : Arr α) (f : Nat → α → StateM σ Unit) (s : σ) :
+    (forEachEM a f).run s = (.ok (), ((forEachIdxM f 0 a.elems).run s).2) := rfl
+
+theorem foldM_run (a : Arr α) (init : γ) (f : γ → α → StateM σ γ) (s : σ) :
+    (foldM a init f).run s =
+      (.ok ((foldIdxM (fun _ acc x => f acc x) 0 init a.elems).run s).1,
+       ((foldIdxM (fun _ acc x => f acc x) 0 init a.elems).run s).2) := rfl
+
+
+theorem mapE_unfold (a : Arr α) (f : Nat → α → β) :
+    mapE a f = (collect (imapFrom f 0 a.elems) >>= fun c => reshape c a.shape) := by
+  have := traverseIdx_pure f 0 a.elems
+  show (collect (Id.run (traverseIdx (m := Id) (fun j x => pure (f j x)) 0 a.elems)) >>= fun c => reshape c a.shape) = _
+  rw [this]
+
+theorem map_unfold (a : Arr α) (f : α → β) :
+    map a f = (collect (a.elems.map f) >>= fun c => reshape c a.shape) := by
+  have := mapE_unfold a (fun _ x => f x)
+  rw [imapFrom_const] at this
+  exact this
+
+theorem filterE_unfold (a : Arr α) (p : Nat → α → Bool) :
+    filterE a p = (collect (select a.elems (imapFrom p 0 a.elems)) >>= Iter.ravel) := by
+  have := filterIdxM_pure p 0 a.elems
+  show (collect (Id.run (filterIdxM (m := Id) (fun j x => pure (p j x)) 0 a.elems)) >>= Iter.ravel) = _
+  rw [this]
+
+theorem filterMapE_unfold (a : Arr α) (f : Nat → α → Option β) :
+    filterMapE a f = (collect (somes (imapFrom f 0 a.elems)) >>= Iter.ravel) := by
+  have := filterMapIdxM_pure f 0 a.elems
+  show (collect (Id.run (filterMapIdxM (m := Id) (fun j x => pure (f j x)) 0 a.elems)) >>= Iter.ravel) = _
+  rw [this]
+
+theorem fold_unfold (a : Arr α) (init : γ) (f : γ → α → γ) : fold a init f = .ok (a.elems.foldl f init) := by
+  have := foldIdxM_pure f 0 init a.elems
+  show Res.ok (Id.run (foldIdxM (m := Id) (fun _ acc x => pure (f acc x)) 0 init a.elems)) = _
+  rw [this]
+
 
 end ArrModel.Iter
